@@ -4,6 +4,7 @@ from __future__ import annotations
 
 import ast
 
+from ..classes import CORE
 from ..kinds import Lin, NonLin, describe
 from ..loader import AnalysisError, World
 from ..mutate import edit_def, remove_stmt, replace_expr
@@ -74,12 +75,7 @@ def run(ctx, ck) -> None:
     ck.expect('B4', ok, r.node if r else diag.node, why, f'BlockDiagonalOperator.inverse: {why}', instance='block-wise inverse')
 
     # ------------------------------------------------------------------ B6 constructor validation
-    for cls, acc, tag in ((row, 'out_structure', 'OUT'), (col, 'in_structure', 'IN')):
-        fn = cls.own.get('__init__')
-        if not isinstance(fn, ast.FunctionDef):
-            ck.bad('B6', cls.node, f'{cls.name} no longer validates its blocks at construction', instance=cls.name)
-            continue
-        _validation(ck, world, table, cls, fn, tag)
+    construction_validation(ctx, ck, row, col)
 
     # ------------------------------------------------------------------ B8 reduction keeps the container
     sub = type(ck)(ck.pid)
@@ -100,6 +96,84 @@ def run(ctx, ck) -> None:
         o.rule = o.rule.replace('R-BLK', 'B7')
         ck.obs.append(o)
     ck.floors.extend((r.replace('R-BLK', 'B7'), c, m, w) for r, c, m, w in sub.floors)
+
+
+def construction_validation(ctx, ck, row, col) -> None:
+    """B6 (shared with C05.O8): a block row / column refuses blocks that do not share the output / input structure."""
+    world, table = ctx.world, ctx.table
+    decided = _validation_by_evaluation(ctx, ck, row, col)
+    written = type(ck)(ck.pid)
+    for cls, acc, tag in ((row, 'out_structure', 'OUT'), (col, 'in_structure', 'IN')):
+        fn = cls.own.get('__init__')
+        if not isinstance(fn, ast.FunctionDef):
+            written.bad('B6', cls.node, f'{cls.name} no longer validates its blocks at construction', instance=cls.name)
+            continue
+        _validation(written, world, table, cls, fn, tag)
+    # (where the construction is decided by evaluation, only the confirmations of the written form are kept)
+    ck.obs.extend(o for o in written.obs if not (decided and o.status != 'ok'))
+
+
+def _validation_by_evaluation(ctx, ck, row, col) -> bool:
+    """B6 by abstract execution (sa/axinterp.py): BlockRowOperator and BlockColumnOperator are constructed on two and three
+    opaque operators, in lists, dicts and nested containers: the construction must raise ValueError whenever a block differs
+    from the first one in the structure the blocks share (output for a row, input for a column) - in shape or in dtype only -
+    and must succeed when only the other structures differ.  Returns True when decided."""
+    from ..axinterp import Interp, Obj, Raised, StructLeaf, Undecided, UNK
+    from .. import run as _run
+
+    if _run.CONTROL_EXPECT and not _run.CONTROL_EXPECT.endswith(('B6', 'O8')):
+        return False
+    world, table = ctx.world, ctx.table
+    generic = table.find('furax._base.dense.DenseBlockDiagonalOperator')
+    base = table.get(f'{CORE}.AbstractLinearOperator')
+    if generic is None:
+        return False
+    s = StructLeaf(((frozenset({'s'}), 3),), 'float32')
+    t = StructLeaf(((frozenset({'t'}), 4),), 'float32')
+    s64 = StructLeaf(((frozenset({'s'}), 3),), 'float64')
+    u = StructLeaf(((frozenset({'u'}), 5),), 'float32')
+    problems: list[str] = []
+    ncases = 0
+    for cls, side in ((row, 'output'), (col, 'input')):
+        def gen(shared, other, name):
+            i, o = (other, shared) if side == 'output' else (shared, other)
+            return Obj(generic, {'_in_structure': i, '__out__': o, 'name': name})
+
+        cases = [
+            ('two blocks sharing it', lambda: [gen(s, t, 'G0'), gen(s, u, 'G1')], False),
+            ('three blocks sharing it, in a dict', lambda: {'a': gen(s, t, 'G0'), 'b': gen(s, u, 'G1'), 'c': gen(s, s, 'G2')}, False),
+            ('nested blocks sharing it', lambda: [gen(s, t, 'G0'), [gen(s, u, 'G1'), gen(s, s, 'G2')]], False),
+            ('a second block of another shape', lambda: [gen(s, t, 'G0'), gen(t, t, 'G1')], True),
+            ('a third block of another shape', lambda: [gen(s, t, 'G0'), gen(s, t, 'G1'), gen(u, t, 'G2')], True),
+            ('a third block of another shape, in a dict', lambda: {'a': gen(s, t, 'G0'), 'b': gen(s, t, 'G1'), 'c': gen(u, t, 'G2')}, True),
+            ('a nested block of another shape', lambda: [gen(s, t, 'G0'), [gen(s, t, 'G1'), gen(u, t, 'G2')]], True),
+            ('a second block of another dtype', lambda: [gen(s, t, 'G0'), gen(s64, t, 'G1')], True),
+        ]
+        for text, build, must_raise in cases:
+            ncases += 1
+            it = Interp(world, table, budget=60_000)
+            out_fn = base.own.get('out_structure')
+            if isinstance(out_fn, ast.FunctionDef):
+                it.summaries[id(out_fn)] = lambda args, kwargs: args[0].attrs.get('__out__', UNK)
+            try:
+                it.construct(cls, build())
+                raised = None
+            except Raised as exc:
+                raised = exc.name
+            except Undecided as exc:
+                ck.note(f'B6: the construction of {cls.name} on {text} could not be executed abstractly: {exc}' + (f' [{it.degraded[0]}]' if it.degraded else ''))
+                return False
+            if it.degraded:
+                ck.note(f'B6: the construction of {cls.name} on {text} could not be executed abstractly: {it.degraded[0]}')
+                return False
+            if must_raise and raised != 'ValueError':
+                problems.append(f'{cls.name} accepts {text} {side} structure' + (f' (raises {raised})' if raised else '') + f': the blocks of a {"row" if side == "output" else "column"} share their {side} structure')
+            if not must_raise and raised:
+                problems.append(f'{cls.name} refuses {text} {side} structure with {raised}')
+    ck.expect('B6', not problems, row.own.get('__init__') or row.node, f'on {ncases} constructions (lists, dicts, nested; two and three blocks) a block row / column is refused with ValueError exactly when a block '
+              'differs from the first in the shared structure, by shape or by dtype', f'{problems[0] if problems else ""} ({len(problems)} of {ncases} constructions)', instance='construction by evaluation', semantic=True)
+    ck.floor('B6', ncases, 16, 'block constructions evaluated')
+    return True
 
 
 def _products_by_evaluation(ctx, ck, rule: str = 'B7') -> bool:
